@@ -595,7 +595,10 @@ func (da *DistributedAllocator) handleRemoteChange(key string, value []byte, del
 
 		// Check if we already have this allocation
 		if existing := da.epochAllocator.Lookup(alloc.SubscriberID); existing != nil && existing.Equal(prefix.IP) {
-			return // Already in sync
+			// Same address: the other node allocated again or renewed the
+			// lease, so our copy must stay alive for as long as theirs
+			da.epochAllocator.Renew(context.Background(), alloc.SubscriberID)
+			return
 		}
 
 		// Apply the announced address in the epoch allocator
